@@ -34,6 +34,7 @@ type Doc struct {
 	RID  uint64           `json:"rid"`
 	Tok  map[string][]Str `json:"tok"`
 	Body string           `json:"body"`
+	Dup  bool             `json:"dup"`
 }
 
 func (d Doc) Env() env.Doc {
@@ -41,6 +42,9 @@ func (d Doc) Env() env.Doc {
 	for f, vs := range d.Tok {
 		for _, v := range vs {
 			o.Tok[f] = append(o.Tok[f], v.String())
+			if d.Dup {
+				o.Tok[f] = append(o.Tok[f], v.String())
+			}
 		}
 	}
 	return o
